@@ -17,7 +17,7 @@ def strat(q, rt):
 
 def task(t, g, name, par, ch, strats, cond=False, term=False, sink=False, src=False):
     return {"t": t, "g": g, "nk": [ord(c) for c in name], "par": par, "ch": ch, "cond": cond, "term": term,
-            "strats": strats, "sink": sink, "src": src}
+            "strats": strats, "sink": sink, "src": src, "prof": 0}
 
 
 NOSD = {"dem": [], "rt": -1, "bs": 0, "bid": 0}
